@@ -3,6 +3,7 @@
 from __future__ import annotations
 
 from asyncio import (
+    CancelledError,
     Event,
     Future,
     Queue,
@@ -76,6 +77,7 @@ class StreamItemQueue:
         self._producer_cancelled = False
         self._pending_futures: set[Future[WorkResult]] = set()
         self._aborted = False
+        self._failed = False
         self._finished = False
         self._stopped = False
         if eager:
@@ -102,6 +104,7 @@ class StreamItemQueue:
             # settle the pending item futures and clean up the source
             # before delivering the failure
             self._aborted = True
+            self._failed = True
             await self._settle_pending()
             on_abort = self._on_abort
             if on_abort is not None:
@@ -141,8 +144,18 @@ class StreamItemQueue:
             entry = await entries.get() if held is None else held
             held = None
             if isfuture(entry):
+                future = entry
                 try:
-                    entry = await entry
+                    entry = await future
+                except CancelledError:
+                    if future.cancelled() and self._failed:
+                        # This pending item was cancelled because the stream failed
+                        # at a later item; since the items must be delivered without
+                        # gaps, drop the remaining items and deliver that failure.
+                        while not isinstance(entry, _ErrorEntry):
+                            entry = await entries.get()
+                        raise entry.error from None
+                    raise
                 except Exception:
                     await self._cleanup()
                     raise
@@ -170,8 +183,8 @@ class StreamItemQueue:
                 if isfuture(next_entry):
                     try:
                         next_entry = next_entry.result()
-                    except Exception:
-                        held = next_entry  # re-raise when delivered as head
+                    except (Exception, CancelledError):
+                        held = next_entry  # handle when delivered as head
                         break
                 batch.append(next_entry)
             yield batch
